@@ -95,6 +95,8 @@ def run(chk):
 
 def replay(chk, path):
     case = json.load(open(path))["payload"]
+    if vlib.replay_generic(chk, case):
+        chk.finish(rule="re-validation of one recorded trace / batch job")
     jp, op = chk.path("r.in"), chk.path("r.out")
     vlib.write_ndjson(jp, [{"prog": case["program"], "tests": [case["test"]]}])
     vlib.harness("codec", "--curve", case["curve"], "--jobs", jp, "--seed", chk.seed, "--out", op)
